@@ -17,6 +17,9 @@ const (
 	nsLen = 20
 	raLen = 12
 	rsLen = 4
+
+	// length of the ICMPv6 header (type, code, checksum) that precedes each message body
+	icmp6HeaderLen = 4
 )
 
 // errParseMessage is a sentinel which indicates an error from ParseMessage.
@@ -66,7 +69,10 @@ func (ra *RouterAdvertisement) marshal() ([]byte, error) {
 		return nil, err
 	}
 
-	b := make([]byte, raLen)
+	// the message starts with the 4 byte ICMPv6 header: type, code, checksum (filled in when sent)
+	msg := make([]byte, icmp6HeaderLen+raLen)
+	msg[0] = byte(ipv6.ICMPTypeRouterAdvertisement)
+	b := msg[icmp6HeaderLen:]
 
 	b[0] = ra.CurrentHopLimit
 
@@ -94,6 +100,7 @@ func (ra *RouterAdvertisement) marshal() ([]byte, error) {
 
 	retrans := ra.RetransmitTimer / time.Millisecond
 	binary.BigEndian.PutUint32(b[8:12], uint32(retrans))
+	b = msg
 
 	ob, err := marshalOptions(ra.Options)
 	if err != nil {
@@ -164,8 +171,9 @@ type RouterSolicitation struct {
 func (rs *RouterSolicitation) Type() ipv6.ICMPType { return ipv6.ICMPTypeRouterSolicitation }
 
 func (rs *RouterSolicitation) marshal() ([]byte, error) {
-	// b contains reserved area.
-	b := make([]byte, rsLen)
+	// b contains the 4 byte ICMPv6 header (type, code, checksum filled in when sent) and the reserved area.
+	b := make([]byte, icmp6HeaderLen+rsLen)
+	b[0] = byte(ipv6.ICMPTypeRouterSolicitation)
 
 	ob, err := marshalOptions(rs.Options)
 	if err != nil {
